@@ -113,25 +113,45 @@ def tsStart (s : TsSt) (q : Bytes) : Option TsSt :=
   else if g 1 &&& 0x40 ≠ 0 then none
   else some s
 
-/-- copy the payload bytes that are already in `ts_buffer` (`q[4 ..]`) -/
-def tsCopy (s : TsSt) (q : Bytes) : TsSt × Option Err :=
+/-- the "PES packet complete" step (`ts_pes_packet_complete` since fix dvb-demux-ts-first-packet; inline in
+the copy loop before): look at the header in `pes_buffer`, set up `ts_frame_bp / ts_frame_todo` -/
+def tsComplete (s1 : TsSt) : TsSt × Option Err :=
+  if s1.pes.length < 46 then (s1, some (.oob "ts_pes_header"))
+  else match validHeader s1.fs (s1.pes.take 46) with
+    | none => ({ s1 with fs := { s1.fs with newFrame := true }, frameRest := [] }, none)
+    | some fs' => ({ s1 with fs := { fs' with frame := { fs'.frame with nDu := 0 } }, frameRest := s1.pes.drop 46 }, none)
+
+/-- end of the header evaluation of a TS packet with payload: `if (0 == dx->ts_pes_todo)
+ts_pes_packet_complete (dx);` - present only with fix dvb-demux-ts-first-packet (F30) -/
+def tsCopyDone (cfg : SrcCfg) (s1 : TsSt) : TsSt × Option Err :=
+  if cfg.tsCompletesInHeader = true ∧ s1.pesTodo = 0 then tsComplete s1 else (s1, none)
+
+/-- the end of both branches of the payload copy: completion step, `ts_buffer` bookkeeping -/
+def tsCopyFin (cfg : SrcCfg) (sOrig s1 : TsSt) (q : Bytes) : TsSt × Option Err :=
+  match tsCopyDone cfg s1 with
+  | (s2, none) => (tsAdvance s2 q false, none)
+  | (_, some e) => (sOrig, some e)
+
+/-- copy the payload bytes that are already in `ts_buffer` (`q[4 ..]`).  (The C code does the `ts_buffer`
+bookkeeping `tsAdvance` before the completion step; the two touch disjoint fields, the model does the
+completion first so that a fault hands back the unchanged state like the other faults.) -/
+def tsCopy (cfg : SrcCfg) (s : TsSt) (q : Bytes) : TsSt × Option Err :=
   let avail := q.length
   if avail ≤ 188 then
     let consume := min s.pesTodo 184
     let fragment := min (avail - 4) consume
     if s.pes.length + fragment > PES_BUF_SIZE then (s, some (.oob "ts_pes_copy_header"))
     else
-      (tsAdvance { s with pes := s.pes ++ (q.drop 4).take fragment, pesTodo := s.pesTodo - fragment,
-                          consume := consume - fragment } q false, none)
+      tsCopyFin cfg s { s with pes := s.pes ++ (q.drop 4).take fragment, pesTodo := s.pesTodo - fragment,
+                               consume := consume - fragment } q
   else
     let fragment := min s.pesTodo 184
     if s.pes.length + fragment > PES_BUF_SIZE then (s, some (.oob "ts_pes_copy_resync"))
     else
-      (tsAdvance { s with pes := s.pes ++ (q.drop 4).take fragment, pesTodo := s.pesTodo - fragment }
-         q false, none)
+      tsCopyFin cfg s { s with pes := s.pes ++ (q.drop 4).take fragment, pesTodo := s.pesTodo - fragment } q
 
 /-- header evaluation of the TS packet `q` (`q.length = avail >= 10`), from `b1 = p[1]` on -/
-def tsHeader (s : TsSt) (q : Bytes) : TsSt × Option Err :=
+def tsHeader (cfg : SrcCfg) (s : TsSt) (q : Bytes) : TsSt × Option Err :=
   match tsHeaderCheck s q with
   | some true => (tsSkipPesPacket s q, none)
   | some false => (tsSkipPacket s q, none)
@@ -143,7 +163,7 @@ def tsHeader (s : TsSt) (q : Bytes) : TsSt × Option Err :=
     | .ok =>
       match tsStart { s with cont := some (b3 + 1) } q with
       | none => (tsSkipPesPacket { s with cont := some (b3 + 1) } q, none)
-      | some s1 => tsCopy s1 q
+      | some s1 => tsCopy cfg s1 q
 
 /-- outcome of one input-consuming block of the loop body on the unread input `rest` -/
 inductive Ph where
@@ -182,9 +202,9 @@ def tsPhaseA (s : TsSt) (rest : Bytes) : Ph :=
   else .go s 0
 
 /-- B. `if (ts_frame_todo > 0) { ... }`: extract data units from the PES packet in `pes_buffer` -/
-def tsPhaseB (hasCb skipEmpty : Bool) (s : TsSt) : TsSt × List FrameOut × Option Stop :=
+def tsPhaseB (cfg : SrcCfg) (hasCb skipEmpty : Bool) (s : TsSt) : TsSt × List FrameOut × Option Stop :=
   if s.frameRest.length > 0 then
-    match pesPacketFrame 3 hasCb skipEmpty s.fs s.frameRest with
+    match pesPacketFrame cfg 3 hasCb skipEmpty s.fs s.frameRest with
     | (fs1, outs, .callback, rest) => ({ s with fs := fs1, frameRest := rest }, outs, some .callback)
     | (fs1, outs, .fault e, rest) => ({ s with fs := fs1, frameRest := rest }, outs, some (.fault e))
     | (fs1, outs, .err, _) => ({ s with fs := { fs1 with newFrame := true }, frameRest := [] }, outs, none)
@@ -205,7 +225,7 @@ def tsPhaseD (s : TsSt) (rest : Bytes) : Ph :=
   else .go { s with tsBuf := s.tsBuf ++ rest.take s.lookahead } s.lookahead
 
 /-- E. everything after the copy: sync check / sync search, header evaluation (no input is read) -/
-def tsPhaseE (s : TsSt) : TsSt × TsK :=
+def tsPhaseE (cfg : SrcCfg) (s : TsSt) : TsSt × TsK :=
   let avail := s.tsBuf.length
   if s.inSync then
     if avail < TS_HEADER_LOOKAHEAD then (s, .stop (.fault (.oob "ts_header_read")))
@@ -215,7 +235,7 @@ def tsPhaseE (s : TsSt) : TsSt × TsK :=
         ({ s with inSync := false, fs := { s.fs with newFrame := true }, pesTodo := 0, consume := 0,
                   cont := none, lookahead := TS_SYNC_SEARCH_LOOKAHEAD - avail }, .cont)
     else
-      match tsHeader s s.tsBuf with
+      match tsHeader cfg s s.tsBuf with
       | (s', none) => (s', .cont)
       | (s', some e) => (s', .stop (.fault e))
   else
@@ -231,17 +251,17 @@ def tsPhaseE (s : TsSt) : TsSt × TsK :=
         let q := s.tsBuf.drop p
         if q.length < TS_HEADER_LOOKAHEAD then (s, .stop (.fault (.oob "ts_header_read_sync")))
         else
-          match tsHeader { s with inSync := true } q with
+          match tsHeader cfg { s with inSync := true } q with
           | (s', none) => (s', .cont)
           | (s', some e) => (s', .stop (.fault e))
 
 /-- one pass through the `for (;;)` body of `demux_ts_packet` on the unread input `rest`:
 (state, frames, bytes consumed, outcome) -/
-def tsStep (hasCb skipEmpty : Bool) (s : TsSt) (rest : Bytes) : TsSt × List FrameOut × Nat × TsK :=
+def tsStep (cfg : SrcCfg) (hasCb skipEmpty : Bool) (s : TsSt) (rest : Bytes) : TsSt × List FrameOut × Nat × TsK :=
   match tsPhaseA s rest with
   | .stop s' k => (s', [], rest.length, .stop k)
   | .go s1 n1 =>
-    match tsPhaseB hasCb skipEmpty s1 with
+    match tsPhaseB cfg hasCb skipEmpty s1 with
     | (s2, outs, some k) => (s2, outs, n1, .stop k)
     | (s2, outs, none) =>
       match tsPhaseC s2 (rest.drop n1) with
@@ -250,23 +270,23 @@ def tsStep (hasCb skipEmpty : Bool) (s : TsSt) (rest : Bytes) : TsSt × List Fra
         match tsPhaseD s3 (rest.drop (n1 + n3)) with
         | .stop s4 k => (s4, outs, rest.length, .stop k)
         | .go s4 n4 =>
-          match tsPhaseE s4 with
+          match tsPhaseE cfg s4 with
           | (s5, k) => (s5, outs, n1 + n3 + n4, k)
 
 /-- `demux_ts_packet` on the unread input `rest`: (state, frames, bytes consumed, how it returned) -/
-def tsRun : Nat → Bool → Bool → TsSt → Bytes → TsSt × List FrameOut × Nat × Stop
+def tsRun (cfg : SrcCfg) : Nat → Bool → Bool → TsSt → Bytes → TsSt × List FrameOut × Nat × Stop
   | 0, _, _, s, _ => (s, [], 0, .fault (.assertFail "ts_loop_fuel"))
   | fuel + 1, hasCb, skipEmpty, s, rest =>
-    match tsStep hasCb skipEmpty s rest with
+    match tsStep cfg hasCb skipEmpty s rest with
     | (s', outs, n, .stop r) => (s', outs, n, r)
     | (s', outs, n, .cont) =>
-      let (s2, outs2, n2, r) := tsRun fuel hasCb skipEmpty s' (rest.drop n)
+      let (s2, outs2, n2, r) := tsRun cfg fuel hasCb skipEmpty s' (rest.drop n)
       (s2, outs ++ outs2, n + n2, r)
 
 /-- `demux_ts_packet (dx, &src, &src_left)` with `*src = buf + si` -/
-def tsLoop (fuel : Nat) (hasCb skipEmpty : Bool) (s : TsSt) (buf : Bytes) (si : Nat) :
+def tsLoop (cfg : SrcCfg) (fuel : Nat) (hasCb skipEmpty : Bool) (s : TsSt) (buf : Bytes) (si : Nat) :
     TsSt × List FrameOut × Nat × Stop :=
-  match tsRun fuel hasCb skipEmpty s (buf.drop si) with
+  match tsRun cfg fuel hasCb skipEmpty s (buf.drop si) with
   | (s', outs, n, r) => (s', outs, si + n, r)
 
 structure TsRes where
@@ -279,17 +299,17 @@ structure TsRes where
 def tsFuel (buf : Bytes) (si : Nat) : Nat := (buf.length - si) + 2
 
 /-- `vbi_dvb_demux_feed` on a TS demux whose callback returns TRUE -/
-def tsFeed (s : TsSt) (buf : Bytes) : TsRes :=
+def tsFeed (cfg : SrcCfg) (s : TsSt) (buf : Bytes) : TsRes :=
   if buf.length = 0 then { st := s }        -- if (0 == s_left) return 0
-  else match tsLoop (tsFuel buf 0) true false s buf 0 with
+  else match tsLoop cfg (tsFuel buf 0) true false s buf 0 with
     | (s', outs, _, .fault e) => { st := s', frames := outs, err := some e }
     | (s', outs, _, _) => { st := s', frames := outs }
 
 /-- one `vbi_dvb_demux_cor` call on a TS demux -/
-def tsCor (skipEmpty : Bool) (s : TsSt) (buf : Bytes) (si maxLines : Nat) :
+def tsCor (cfg : SrcCfg) (skipEmpty : Bool) (s : TsSt) (buf : Bytes) (si maxLines : Nat) :
     TsSt × Nat × Option FrameOut × Option Err :=
   if buf.length - si = 0 then (s, si, none, none)
-  else match tsLoop (tsFuel buf si) false skipEmpty s buf si with
+  else match tsLoop cfg (tsFuel buf si) false skipEmpty s buf si with
     | (s', _, si', .fault e) => (s', si', none, some e)
     | (s', _, si', .needMore) => (s', si', none, none)
     | (s', _, si', .callback) =>
@@ -299,18 +319,18 @@ def tsCor (skipEmpty : Bool) (s : TsSt) (buf : Bytes) (si maxLines : Nat) :
          some { pts := s'.fs.framePts, lines := s'.fs.frame.lines.take n }, none)
       else (s', si', none, none)
 
-def tsCorDrain : Nat → Bool → Nat → TsSt → Bytes → Nat → Nat → TsRes
+def tsCorDrain (cfg : SrcCfg) : Nat → Bool → Nat → TsSt → Bytes → Nat → Nat → TsRes
   | 0, _, _, s, _, _, _ => { st := s, err := some (.assertFail "cor_drain_fuel") }
   | fuel + 1, skipEmpty, stall, s, buf, si, maxLines =>
     if si ≥ buf.length then { st := s }
     else
-      match tsCor skipEmpty s buf si maxLines with
+      match tsCor cfg skipEmpty s buf si maxLines with
       | (s', _, _, some e) => { st := s', err := some e }
       | (s', si', fo, none) =>
         let stall' := if si' = si ∧ fo.isNone then stall + 1 else 0
         if stall' ≥ COR_STALL_LIMIT then { st := s', stalled := true }
         else
-          let r := tsCorDrain fuel skipEmpty stall' s' buf si' maxLines
+          let r := tsCorDrain cfg fuel skipEmpty stall' s' buf si' maxLines
           { r with frames := fo.toList ++ r.frames }
 
 end Zvbi.Demux
